@@ -228,7 +228,9 @@ func init() {
 					tc.limit = 8192
 					cres := under(tc, func(r *OpResult) { r.F = float64(spg.VerifRandomUint32n(n)) })
 					c.Fault("chunk-one-byte-reads", 1)
-					if cres.Kind != "ok" || uint32(cres.F) != o.res || len(tc.Served) != o.bytes {
+					if cres.Kind != "ok" {
+						c.Count("aborted_on_one_byte_reads", 1) // failing closed on short reads is accepted
+					} else if uint32(cres.F) != o.res || len(tc.Served) != o.bytes {
 						c.Violate("chunking-changes-draw", "", "n=%d tape %v: delivered whole the draw gives %d (%d bytes), delivered one byte per read it gives %s (%d bytes)", n, tp, o.res, o.bytes, cres.brief(), len(tc.Served))
 						c.Narrow(one())
 						continue
